@@ -39,6 +39,7 @@ type Checker struct {
 	externUsed map[string]*FuncContract
 	srcCache  map[string][]byte
 	sigCache  map[string]*specSigT
+	notes     []string
 }
 
 func fullName(pkgPath, rel string) string {
